@@ -236,6 +236,19 @@ func (fr *Frame) evalExpr(e Expr, env *evalEnv) (Value, error) {
 			c.Off = "(bvadd " + s.Off + " " + lo + ")"
 			c.Len = "(bvsub " + hi + " " + lo + ")"
 			return &c, nil
+		case *Sc:
+			// a ghost byte array (sinkData): g[lo:hi] is the sequence of its bytes lo..hi-1
+			if s.K == kArr && s.Sort == sArr(sBV(64), sBV(8)) && x.Hi != nil {
+				h, err := fr.evalExpr(x.Hi, env)
+				if err != nil {
+					return nil, err
+				}
+				hi, err = asInt64(h)
+				if err != nil {
+					return nil, err
+				}
+				return &SeqV{Arr: s.T, Off: lo, Len: "(bvsub " + hi + " " + lo + ")", ElemSort: sBV(8), ElemK: kBV, ElemW: 8}, nil
+			}
 		}
 		return nil, fmt.Errorf("slice of %T", v)
 	case *ECall:
@@ -957,6 +970,60 @@ func (fr *Frame) evalCall(x *ECall, env *evalEnv) (Value, error) {
 		v, err := arg(0)
 		env.names, env.inPre = save, savePre
 		return v, err
+	case "bstore":
+		// bstore(g, j, v): ghost byte array g with byte j replaced by v
+		g, err := arg(0)
+		if err != nil {
+			return nil, err
+		}
+		gs, ok := g.(*Sc)
+		if !ok || gs.K != kArr || gs.Sort != sArr(sBV(64), sBV(8)) {
+			return nil, fmt.Errorf("bstore of %T", g)
+		}
+		jv, err := arg(1)
+		if err != nil {
+			return nil, err
+		}
+		jt, err := asInt64(jv)
+		if err != nil {
+			return nil, err
+		}
+		vv, err := arg(2)
+		if err != nil {
+			return nil, err
+		}
+		vs, ok := vv.(*Sc)
+		if !ok || vs.K != kBV || vs.W != 8 {
+			return nil, fmt.Errorf("bstore value must be a byte")
+		}
+		return &Sc{T: sto(gs.T, jt, vs.T), K: kArr, Sort: gs.Sort}, nil
+	case "bseq":
+		// bseq(g, off, n): the n bytes of ghost byte array g from position off
+		g, err := arg(0)
+		if err != nil {
+			return nil, err
+		}
+		gs, ok := g.(*Sc)
+		if !ok || gs.K != kArr || gs.Sort != sArr(sBV(64), sBV(8)) {
+			return nil, fmt.Errorf("seq of %T", g)
+		}
+		o, err := arg(1)
+		if err != nil {
+			return nil, err
+		}
+		n, err := arg(2)
+		if err != nil {
+			return nil, err
+		}
+		ot, err := asInt64(o)
+		if err != nil {
+			return nil, err
+		}
+		nt, err := asInt64(n)
+		if err != nil {
+			return nil, err
+		}
+		return &SeqV{Arr: gs.T, Off: ot, Len: nt, ElemSort: sBV(8), ElemK: kBV, ElemW: 8}, nil
 	case "len", "cap":
 		v, err := arg(0)
 		if err != nil {
